@@ -8,7 +8,8 @@ Open Scope nat_scope.
 (* Full statement: for EVERY object store (OperatorTemplate, NodeTemplate and CircuitTemplate objects shared at will), every
    root circuit of any hierarchy depth d whose unfolding exists, and EVERY finite history of update_var (scalar / array
    values of any length, wildcard patterns), edge-attribute updates, update_template (nodes / edges, with and without
-   in_place — after fix D75 —, the user's variable following the returned object) and compilations with apply(node_values, edge_values),
+   in_place — after fix D75 —, the user's variable following the returned object, the base templates left behind
+   still compilable: ObserveBase) and compilations with apply(node_values, edge_values),
    the outputs of the implementation model are the outputs of the specification (functional update of the addressed
    paths of the unshared tree, nothing else). *)
 Definition C07_full_statement : Prop := forall d r ops h t, abs d h r = Some t ->
@@ -18,10 +19,10 @@ Theorem C07_full : C07_full_statement.
 Proof. exact history_outputs. Qed.
 Print Assumptions C07_full.
 
-(* together with the simulation of the states (the root object changes along update_template without in_place) *)
-Theorem C07_refines : forall d ops st t, abs d (heap_of st) (root_of st) = Some t ->
-  abs d (heap_of (fst (runI d st ops))) (root_of (fst (runI d st ops))) = Some (fst (runS d t ops)) /\
-  snd (runI d st ops) = snd (runS d t ops).
+(* together with the simulation of the states: `sim` = the current template denotes the specification's current tree and
+   every base template left behind by `c = c.update_template(...)` still denotes the tree it had (ObserveBase compiles them) *)
+Theorem C07_refines : forall d ops st ss, sim d st ss ->
+  sim d (fst (runI d st ops)) (fst (runS' d ss ops)) /\ snd (runI d st ops) = snd (runS' d ss ops).
 Proof. exact history_refines. Qed.
 Print Assumptions C07_refines.
 
@@ -115,3 +116,14 @@ Example C07_inplace_edges_regression :
   probe_w "A/op/x" "B/op/u" outs = 64%Z /\ probe_w "B/op/x" "A/op/u" outs = 8%Z.
 Proof. vm_compute. auto. Qed.
 Print Assumptions C07_inplace_edges_regression.
+
+(* the base template is left alone: derived = base.update_template(edges=[..]) (not in place) shares the sub-circuit objects
+   with base; derived.update_var('c1/A/op/k', 5) changes derived only (fix D47 copies the sub-circuit on the path) *)
+Definition base_ops : list hop :=
+  [UpdTemplate false [] [("c2/A/op/x"%string, "c1/B/op/u"%string, [("weight"%string, Sc (mkq 4 1))])];
+   UpdVar ["c1"%string; "A"%string] "op" "k" (Sc (mkq 5 1)); ObserveBase 0].
+Example C07_base_untouched :
+  probe (["c1"%string; "A"%string], "op"%string, "k"%string) (snd (runI 1 (init_state d27_heap 3) base_ops)) = 1%Z /\
+  probe (["c1"%string; "A"%string], "op"%string, "k"%string) (snd (runI 1 (init_state d27_heap 3) (base_ops ++ [Observe [] []]))) = 5%Z.
+Proof. vm_compute. auto. Qed.
+Print Assumptions C07_base_untouched.
